@@ -253,7 +253,7 @@ func c08Enum() []*c08Case {
 var c08EnumList = c08Enum()
 
 func (p *c08) NumCases(tier string, seed int64) int {
-	return len(c08EnumList) + tierN(tier, 40000, 1000000)
+	return len(c08EnumList) + tierN(tier, 150000, 15000000)
 }
 
 func (p *c08) gen(tier string, seed int64, idx int) *c08Case {
